@@ -6,6 +6,7 @@ import Qfx.Lemmas.CodecParse
 import Qfx.Lemmas.CodecParseD
 import Qfx.Lemmas.CodecTotal
 import Qfx.Lemmas.CodecBody
+import Qfx.Lemmas.CodecXml
 open Qfx Qfx.Spec
 
 /-- the field extracted from a buffer is exactly the bytes up to and including the first SOH; the rest is what follows -/
@@ -218,6 +219,24 @@ theorem C11_bodyBytes_nodict (fx : Fixes) (t8 t9 t35 t10 : TagValue) (H B T : Li
     rw [hb]; simp
   · intro tv h; rw [← secOf_none]; exact hT tv h
 
+/-- XMLData CARRIED WITH ITS LENGTH ("including XMLData carried with its length").  For every wire message
+    `8, 9, 35, plain…, 212=<n>, 213=<data>, plain…, 10` in which `data` is ANY `n > 0` bytes (SOH, `=`, anything), with any
+    dictionaries under which the plain fields start no group: the parse succeeds, `Message.fields` is the wire's field list in
+    order — the 213 field with exactly the `n` data bytes as its value — followed by one unused (zero) entry per SOH byte inside
+    the data (Go sizes the array by counting SOH), and `Bytes()` is the wire.  (For such messages Go skips the BodyLength
+    comparison; BodyLength only has to be an integer.) -/
+theorem C11_faithful_xml (fx : Fixes) (d : Dicts) (t8 t9 t35 x212 x213 t10 : TagValue) (preA postB : List TagValue) (bl : Int)
+    (hw8 : IsWire t8) (hw9 : IsWire t9) (hw35 : IsWire t35) (hw10 : IsWire t10)
+    (h8 : t8.tag = 8) (h9 : t9.tag = 9) (h35 : t35.tag = 35) (h10 : t10.tag = 10)
+    (hpre : PlainFields d preA) (hpost : PlainFields d postB)
+    (hw212 : IsWire x212) (h212 : x212.tag = 212) (hlen : atoi x212.value = .ok (x213.value.length : Int)) (hpos : 0 < x213.value.length)
+    (hw213 : IsXmlWire x213) (h213 : x213.tag = 213)
+    (hng10 : NoGroupTag d 10) (hh10 : isHeaderField d 10 = false) (hbl : atoi t9.value = .ok bl) :
+    ∃ m, parseMessage fx d (wireOf (t8 :: t9 :: t35 :: (preA ++ x212 :: x213 :: (postB ++ [t10])))) = .ok m ∧
+      m.fields = t8 :: t9 :: t35 :: (preA ++ x212 :: x213 :: (postB ++ [t10])) ++ List.replicate (countByte x213.value SOH) TagValue.zero ∧
+      m.raw = some (wireOf (t8 :: t9 :: t35 :: (preA ++ x212 :: x213 :: (postB ++ [t10])))) :=
+  parse_xml fx t8 t9 t35 x212 x213 t10 preA postB bl hw8 hw9 hw35 hw10 h8 h9 h35 h10 hpre hpost hw212 h212 hlen hpos hw213 h213 hng10 hh10 hbl
+
 /-- PANIC FREEDOM OF THE PARSER (codec part of C09; `C09_parse_total` of DESIGN §5).  After the fixes of D2 and D3, for EVERY
     byte string and EVERY dictionaries (transport and application, any content), `ParseMessageWithDataDictionary` into a
     fresh message returns a message or an error: none of the Go index / slice expressions of `doParsing`, `parseGroup`,
@@ -282,7 +301,8 @@ example : (extractField [56, 61, 70, 1, 57, 61, 53, 1]).1 = [57, 61, 53, 1] := b
 /- Clause checklist (properties.jsonl C11):
    "parsing succeeds … every field retrievable … order preserved … raw bytes unchanged"   no dictionary: C11_faithful_nodict,
         C11_retrievable_nodict; app / transport+app dictionaries, messages without dictionary groups: C11_faithful_dict_nogroups;
-        with dictionary groups and XMLData: C11_faithful_full, C11_retrievable_full (monitor)
+        XMLData with its length (any dictionaries without groups): C11_faithful_xml; dictionary groups: C13_dict_flat_group_*;
+        nested dictionary groups: C11_faithful_full, C11_retrievable_full (monitor)
         (monitor clauses accepts_wf, fields_faithful, parsed_sections, retrievable, raw_unchanged); field slicing: C11_extractField_slices
    "first three fields are not 8, 9, 35 … rejected"                                          C11_rejects_order
    (byte layer of C03: bodyBytes)                                                             C11_bodyBytes_nodict
